@@ -214,6 +214,13 @@ func (p *P) Run(src *tape.Source, trace bool) *core.Result {
 				op.SQL = rotateLower(coldSQL, t%2)
 			}
 			work[t] = append(work[t], &cell{op: op})
+			if pureFocus && op.SQL != "" && src.Intn(2, "c10.observer") == 1 {
+				// an observer right behind the focused operation: a plain default parse
+				// of the same text - whatever the focused path leaves in shared pools
+				// or tables shows in ITS result
+				obs := ops.Op{Kind: []ops.Kind{ops.Parse, ops.ParserParseBytes, ops.Validate}[src.Intn(3, "c10.observerkind")], SQL: op.SQL}
+				work[t] = append(work[t], &cell{op: obs})
+			}
 		}
 		n := 1 + src.Intn(5, "c10.nops")
 		if pureFocus && src.Intn(2, "c10.focusonly") == 1 {
